@@ -334,6 +334,7 @@ fn battery(sim: &Sim, dev: &crate::world::Dev, vsize: u64, cs: u64, bs: u64, ro:
     if vend >= 3 * cs && cs <= (1 << 18) {
         let len = (3 * cs) as usize;
         let mut buf = Qcow2IoBuf::<u8>::new(len);
+        buf.fill(POISON);
         calls += 1;
         sim.run_one(async { dev.read_at(&mut buf, 0).await.map(|_| ()) }, STEP_BUDGET)
             .map_err(|s| format!("read_at(0,{len}): {s:?}"))
@@ -361,7 +362,10 @@ fn battery(sim: &Sim, dev: &crate::world::Dev, vsize: u64, cs: u64, bs: u64, ro:
     }
     if !ro {
         for off in offs.iter().take(3) {
-            let buf = Qcow2IoBuf::<u8>::new(bs as usize);
+            // (never hand out uninitialised bytes: what they are depends on
+            // what the process did before)
+            let mut buf = Qcow2IoBuf::<u8>::new(bs as usize);
+            buf.fill(0x3c);
             calls += 1;
             sim.run_one(async { dev.write_at(&buf, *off).await }, STEP_BUDGET)
                 .map_err(|s| format!("write_at({off:#x}): {s:?}"))
@@ -599,6 +603,9 @@ pub fn run_mal(p: &Profile, seed: u64, run: u64, ov: &Override, want_case: bool)
             file_len = top.len();
             let sim = Sim::new(Chooser::generate(mix(s, 9)));
             sim.core.knobs.borrow_mut().inline_pct = cfg.inline_pct;
+            if std::env::var("QSIM_TRACE").is_ok() {
+                sim.core.trace_on.set(true);
+            }
             sim.add_file(&layer_path(0), PageFile::from_bytes(&top), bs);
             for i in 1..n {
                 let b = build_layer(&cfg.layers[i], i, n, bs);
@@ -641,6 +648,24 @@ pub fn run_mal(p: &Profile, seed: u64, run: u64, ov: &Override, want_case: bool)
                     }
                 }
             }
+            if std::env::var("QSIM_TRACE").is_ok() {
+                for l in sim.core.trace.borrow().iter() {
+                    eprintln!("{l}");
+                }
+            }
+            // how far the library wrote into the (sparse) file: the simulated
+            // file keeps a page index of 8 bytes per 512 bytes of length,
+            // which is the harness's memory, not the library's
+            let far = sim
+                .core
+                .reqs
+                .borrow()
+                .iter()
+                .filter(|r| r.kind == crate::sim::ReqKind::Write && r.ok == Some(true))
+                .map(|r| r.off + r.len as u64)
+                .max()
+                .unwrap_or(0);
+            o2.stats.insert("max_write_end".into(), far);
             o2.steps = sim.core.steps.get();
             o2.reqs = sim.core.reqs.borrow().len() as u64;
             o2.fingerprint = sim.core.fingerprint.get();
@@ -663,7 +688,10 @@ pub fn run_mal(p: &Profile, seed: u64, run: u64, ov: &Override, want_case: bool)
     }
     let peak = crate::MEM_PEAK.load(Ordering::Relaxed).saturating_sub(base_mem);
     out.stats.insert("peak_alloc_kib".into(), (peak >> 10) as u64);
-    if peak > MEM_CONST + 64 * file_len {
+    // (page index of the simulated file: up to 3 copies - growth by doubling
+    // and one snapshot - of 8 bytes per 512-byte page)
+    let harness_index = out.stats.get("max_write_end").copied().unwrap_or(0) as usize / 512 * 8 * 4;
+    if peak > MEM_CONST + 64 * file_len + harness_index {
         push(
             &mut out,
             "allocation-out-of-proportion",
